@@ -38,15 +38,17 @@ out.append("")
 
 out.append("### S. Seeded breaking changes (generated from `seeded/*/meta.json`; verdicts from `seeded/RESULTS.md`)\n")
 verdicts = {}
+first = {}
 rp = os.path.join(V, "seeded", "RESULTS.md")
 if os.path.exists(rp):
     for l in open(rp):
         m = re.match(r"\|\s*(C\d+-(?:w\d+)?m\d+)\s*\|\s*(C\d+)\s*\|\s*(\w+)\s*\|\s*([A-Z-]+[^|]*)\|\s*([^|]*)\|", l)
         if m:
-            kinds = m.group(5).strip().split(" ")[0]
+            kinds = m.group(5).strip().split(" ")[0] if m.group(4).strip().startswith("CAUGHT") else "no alarm"
             verdicts[(m.group(1), m.group(3))] = (m.group(4).strip(), kinds)
-out.append("| id | property | what the change does | needs to manifest | quick | thorough |")
-out.append("|---|---|---|---|---|---|")
+            first.setdefault((m.group(1), m.group(3)), (m.group(4).strip(), kinds))
+out.append("| id | property | what the change does | needs to manifest | quick: first evaluation | quick: latest evaluation | thorough |")
+out.append("|---|---|---|---|---|---|---|")
 sd = os.path.join(V, "seeded")
 for sid in sorted(os.listdir(sd)):
     mp = os.path.join(sd, sid, "meta.json")
@@ -56,7 +58,10 @@ for sid in sorted(os.listdir(sd)):
     def v(t):
         x = verdicts.get((sid, t))
         return "%s (%s)" % x if x else "—"
-    out.append("| %s | %s | %s | %s | %s | %s |" % (sid, m["property"], str(m.get("what_breaks", "")).replace("|", "/")[:300], str(m.get("needs_to_manifest", "")).replace("|", "/")[:250], v("quick"), v("thorough")))
+    def f(t):
+        x = first.get((sid, t))
+        return "%s (%s)" % x if x else "—"
+    out.append("| %s | %s | %s | %s | %s | %s | %s |" % (sid, m["property"], str(m.get("what_breaks", "")).replace("|", "/")[:300], str(m.get("needs_to_manifest", "")).replace("|", "/")[:250], f("quick"), v("quick"), v("thorough")))
 out.append("")
 
 text = "\n".join(out)
